@@ -357,6 +357,50 @@ static void emit_getval(const vpar_t *p, int x)
     vt_end_line();
 }
 
+/*
+ * emit_stir: let a solve use the vector parameter as a standard (it is
+ * evaluated at the calibration frequencies, which moves the remembered
+ * segment) between two query passes.  Only the hint matters; whether the
+ * solve of the random data succeeds is irrelevant and not asserted.
+ */
+static void emit_stir(const vpar_t *p)
+{
+    vnacal_new_t *vnp;
+    double fv[3];
+    int nf = p->n >= 2 ? 3 : 1, ok = 0;
+    double complex mv[3];
+    double complex *mp[1] = { mv };
+
+    fv[0] = F(p->k[0]);
+    if (nf == 3) {
+	fv[1] = 0.5 * (F(p->k[0]) + F(p->k[p->n - 1]));
+	fv[2] = F(p->k[p->n - 1]);
+    }
+    vt_cb_reset();
+    vnp = LIB(vnacal_new_alloc(vcp, VNACAL_T8, 1, 1, nf));
+    if (vnp != NULL) {
+	if (LIB(vnacal_new_set_frequency_vector(vnp, fv)) == 0) {
+	    static const int other[2] = { VNACAL_SHORT, VNACAL_OPEN };
+
+	    for (int i = 0; i < nf; ++i)
+		mv[i] = crand(1.0);
+	    if (LIB(vnacal_new_add_single_reflect_m(vnp, mp, 1, 1, p->h,
+			    1)) == 0) {
+		for (int s = 0; s < 2; ++s) {
+		    for (int i = 0; i < nf; ++i)
+			mv[i] = crand(1.0);
+		    (void)LIB(vnacal_new_add_single_reflect_m(vnp, mp, 1, 1,
+				other[s], 1));
+		}
+		ok = LIB(vnacal_new_solve(vnp)) == 0;
+	    }
+	}
+	LIBV(vnacal_new_free(vnp));
+    }
+    vt_put("{\"e\":\"Stir\",\"h\":%d,\"solved\":%d}", p->h, ok);
+    vt_end_line();
+}
+
 static int build_queries(const vpar_t *p, int *q, int max)
 {
     int n = 0;
@@ -505,6 +549,13 @@ static void ep_vec(uint64_t seed, int idx)
     }
     for (int i = 0; i < nq_total; ++i)
 	emit_getval(&P[Q[i].p], Q[i].x);
+    /* a solve in between moves the remembered segments */
+    if (idx % 2 == 0) {
+	for (int j = 0; j < np; ++j) {
+	    if (P[j].h >= 0)
+		emit_stir(&P[j]);
+	}
+    }
     /* second pass: every x again at a different history position */
     {
 	int order[512];
@@ -872,9 +923,20 @@ static void ep_rng(uint64_t seed, int idx)
 
 /* ------------------------------------------------ error-network simulator */
 
-enum { MT_T8, MT_U8, MT_E12 };
-static const char *mt_names[] = { "T8", "U8", "E12" };
-static const vnacal_type_t mt_types[] = { VNACAL_T8, VNACAL_U8, VNACAL_E12 };
+enum { MT_T8, MT_U8, MT_E12, MT_TE10, MT_UE10, MT_UE14, MT_COUNT };
+static const char *mt_names[] = { "T8", "U8", "E12", "TE10", "UE10", "UE14" };
+static const vnacal_type_t mt_types[] = { VNACAL_T8, VNACAL_U8, VNACAL_E12,
+    VNACAL_TE10, VNACAL_UE10, VNACAL_UE14 };
+
+static int mt_is12(int mt)
+{
+    return mt == MT_E12 || mt == MT_UE14;
+}
+
+static int mt_has_leak(int mt)
+{
+    return mt == MT_TE10 || mt == MT_UE10;
+}
 
 #define NTERMS_MAX 12
 
@@ -888,7 +950,9 @@ typedef struct errmodel {
 /*
  * 8-term model: per port directivity ed, tracking a (receive side) and b
  * (source side), match em:   M = Ed + A S (I - Em S)^-1 B
- * terms: ed[p], a[p], b[p], em[p]
+ * terms: ed[p], a[p], b[p], em[p]; TE10 / UE10 add the leakage inside the
+ * VNA from the driven port j to the receiver of port i != j:
+ *   M[i][j] += l[i][j]        terms: ..., l[p*(p-1)] (row-major, i != j)
  *
  * 12-term model (generalised SOLT): for each driven column c, leakage /
  * directivity el[r][c], tracking er[r][c], match em[r][c] (source match on
@@ -901,7 +965,7 @@ static void model_measure(const errmodel_t *e, const double complex *S,
 {
     int p = e->p;
 
-    if (e->mt == MT_E12) {
+    if (mt_is12(e->mt)) {
 	const double complex *el = &e->t[0];
 	const double complex *er = &e->t[p * p];
 	const double complex *em = &e->t[2 * p * p];
@@ -946,12 +1010,22 @@ static void model_measure(const errmodel_t *e, const double complex *S,
 		M[i] = NAN;
 	    return;
 	}
-	for (int i = 0; i < p; ++i) {
-	    for (int j = 0; j < p; ++j) {
-		oc_t n = St[j * p + i];
+	{
+	    const double complex *leak = &e->t[4 * p];
+	    int li = 0;
 
-		M[i * p + j] = (double complex)((i == j ? (oc_t)ed[i] : 0.0L)
-			+ (oc_t)a[i] * n * (oc_t)b[j]);
+	    for (int i = 0; i < p; ++i) {
+		for (int j = 0; j < p; ++j) {
+		    oc_t n = St[j * p + i];
+		    oc_t v = (i == j ? (oc_t)ed[i] : 0.0L) +
+			(oc_t)a[i] * n * (oc_t)b[j];
+
+		    if (i != j && mt_has_leak(e->mt))
+			v += (oc_t)leak[li];
+		    if (i != j)
+			++li;
+		    M[i * p + j] = (double complex)v;
+		}
 	    }
 	}
     }
@@ -960,7 +1034,7 @@ static void model_measure(const errmodel_t *e, const double complex *S,
 /* term roles: 0 = small (directivity, match), 1 = tracking, 2 = leakage */
 static int term_role(int mt, int p, int term)
 {
-    if (mt == MT_E12) {
+    if (mt_is12(mt)) {
 	int block = term / (p * p);
 	int cell = term % (p * p);
 	int r = cell / p, c = cell % p;
@@ -974,6 +1048,8 @@ static int term_role(int mt, int p, int term)
     {
 	int block = term / p;
 
+	if (term >= 4 * p)
+	    return 2;
 	return (block == 1 || block == 2) ? 1 : 0;
     }
 }
@@ -1047,7 +1123,8 @@ static void cal_draw_model(calctx_t *c)
     double span = (double)(c->k[c->n - 1] - c->k[0]);
     ratfn_t den;
 
-    c->nterms = c->mt == MT_E12 ? 3 * c->p * c->p : 4 * c->p;
+    c->nterms = mt_is12(c->mt) ? 3 * c->p * c->p :
+	4 * c->p + (mt_has_leak(c->mt) ? c->p * (c->p - 1) : 0);
     if (!c->cls)
 	return;
     if (d > 0 && vt_below(&rng, 5) == 0)
@@ -1066,7 +1143,8 @@ static void cal_draw_model(calctx_t *c)
 	 * a common denominator, every stored term (and every ratio of two
 	 * of them) stays of degree (d, d).
 	 */
-	if (c->mt == MT_E12) {
+	if (c->mt == MT_E12 || t >= 4 * c->p) {
+	    /* (leakage terms of TE10 / UE10 are stored as they are) */
 	    varies = 1;
 	    rat_draw_den(r, d, xc, span);
 	} else {
@@ -1279,6 +1357,14 @@ static void ep_cal(uint64_t seed, int idx)
     c->p = 1 + (idx / 3) % 2;
     c->n = cal_sizes[(idx / 6) % (int)(sizeof(cal_sizes) / sizeof(int))];
     c->cls = (idx / 66) % 2 == 0 ? vt_below(&rng, 2) : 1 - vt_below(&rng, 2);
+    if (idx % 7 == 6) {
+	/* the other 2-port types: leakage types, and UE14 (per-column
+	 * normalisation of the stored terms: no low-order claim) */
+	c->mt = MT_TE10 + (idx / 7) % 3;
+	c->p = 2;
+	if (c->mt == MT_UE14)
+	    c->cls = 0;
+    }
     draw_knots(c->k, c->n, 10 * (2 + vt_below(&rng, 10)), vt_below(&rng, 2));
     cal_draw_model(c);
     emit_calmake(c, 0);
